@@ -96,6 +96,16 @@ def run(tier, seed):
       sample_geos=(4, 5) if quick else (5, 6),
       n_sample=200 if quick else 400, pars=pars, reps=1 if quick else 3,
       n_default=10, salt=3)
+  # pruning family: all geos free, every single geo affordable, some pairs
+  # over the maximum budget, so the superset pruning of over-budget treatment
+  # groups decides which designs are ever evaluated
+  prng = np.random.default_rng([int(seed), 33])
+  for n in ((4, 5) if quick else (4, 5, 6)):
+    for panel in sl.panel_specs(n, prng, 6 if quick else 12):
+      for mult in ([0.0, 1.2], [0.0, 1.6], [0.0, 2.2]):
+        specs.append({'panel': panel, 'elig': None,
+                      'par': {'budget_mult': mult, 'n_test': 7, 'iroas': 1.0,
+                              'n_designs': 50}})
   res = base.MonitorResult(
       'C03: eligibility multisets over <=%d geos, seeded tables up to %d geos '
       'and no-eligibility cases x seeded panels x parameter objects (k = '
@@ -104,8 +114,10 @@ def run(tier, seed):
       'feasible, best first, count = min(k, feasible) up to the designs the '
       'optimistic budget screen may drop, nothing omitted scores strictly '
       'higher than the worst returned, and (no exemptions) equal score '
-      'multisets. non-trivial = at least one design returned; distinct = '
-      'case spec' % ((3, 5) if quick else (4, 6)))
+      'multisets; plus a pruning family (4-%d free geos, budget maximum '
+      '1.2/1.6/2.2 x the median single-geo budget, k = 50). non-trivial = at '
+      'least one design returned; distinct = case spec' % (
+          ((3, 5) if quick else (4, 6)) + ((5 if quick else 6),)))
   res.bound = 'n_geos <= %d, %d cases' % (5 if quick else 6, len(specs))
   return sl.sweep(res, _worker, specs)
 
